@@ -65,9 +65,9 @@ CLAIMS = {
              'the LUT value of the operands\' final values -- also when transitions are dropped by overflow -- starts at the LUT value of '
              'their initial values and yields a well-formed waveform within capacity (so the facts compose along op lists). The '
              'transcription, SimOps and capture are tied to the code by comparing the whole waveform memory, abuf and s[3..10] on '
-             'generated circuits; an independent Boolean evaluator is the oracle. FLAT MEMORY (C03_flat_refines): when every op\'s output region lies inside the memory and is disjoint from the region of every other tracked index (checked per generated case by the proved-sound regions_ok_b; what the allocator gives without c_reuse), c_prop on the flat waveform memory is total and the region of every index, read up to its terminator, IS the line-level waveform, and abuf is the line-level accumulation; the line-level semantics itself (wexec, wacc) is now compared with the real waveform memory / abuf on every generated case. MEMORY LEVEL, ALL OPTIONS (Proofs/WaveRegion.v, WaveSimGlue.v): the region certificate is now DERIVED from the allocator invariant for every build() result and all four c_reuse x strip_forks combinations (C03_build_regions_all: an op\'s output region never overlaps a region that is pinned or still to be read), and the compared memory-level model wsim_case is proved total and to capture, at every s_node with a data line, the capture of the UNSTRIPPED line-level waveform (C03_wavesim_model_correct; with strip_forks under zero delay on fork inputs and monotone stems, the side condition outside which D26 is the refutation); every hypothesis has a proved-sound checker evaluated on every generated case and the theorem\'s prediction is compared with the implementation\'s s[3..10] / abuf. Restated for the compared model: C03_wavesim_model_settles.',
+             'generated circuits; an independent Boolean evaluator is the oracle. FLAT MEMORY (C03_flat_refines): when every op\'s output region lies inside the memory and is disjoint from the region of every other tracked index (checked per generated case by the proved-sound regions_ok_b; what the allocator gives without c_reuse), c_prop on the flat waveform memory is total and the region of every index, read up to its terminator, IS the line-level waveform, and abuf is the line-level accumulation; the line-level semantics itself (wexec, wacc) is now compared with the real waveform memory / abuf on every generated case. MEMORY LEVEL, ALL OPTIONS (Proofs/WaveRegion.v, WaveSimGlue.v): the region certificate is now DERIVED from the allocator invariant for every build() result and all four c_reuse x strip_forks combinations (C03_build_regions_all: an op\'s output region never overlaps a region that is pinned or still to be read), and the compared memory-level model wsim_case is proved total and to capture, at every s_node with a data line, the capture of the UNSTRIPPED line-level waveform (C03_wavesim_model_correct; with strip_forks under zero delay on fork inputs and monotone stems, the side condition outside which D26 is the refutation); every hypothesis has a proved-sound checker evaluated on every generated case and the theorem\'s prediction is compared with the implementation\'s s[3..10] / abuf. Restated for the compared model: C03_wavesim_model_settles. SOURCE TIE OF THE KERNELS (round 3): translate/gen_wave_eval.py, a fail-closed Python-ast translator, regenerates Gen/WaveEvalSrc.v from the CURRENT text of _wave_eval, wave_capture_cpu, wave_capture_gpu and the dataset-selection prologue on every run (one record of all locals, statement by statement, loop as fuel recursion), and the translated source is PROVED equal to the hand model all the theorems are about, for all inputs with capacity >= 2 (C03_kernel_source_is_model, _any_bound; at capacity 1 they differ: C03_kernel_source_cap1_differs, SimOps never allocates less than 4); every memory access of the kernels is in the kernel\'s own lane column (the translator rejects anything else), so lane independence holds by construction. C03_source_total / C03_source_settles state termination and the settle property directly for the translated source.',
         design_ref='5/C03',
-        note='Modelled not verified: _wave_eval, s_to_c, c_to_s, SimOps (hand transcriptions). Time is modelled as extended integers: '
+        note='Translated from source and proved equal to the model: _wave_eval, wave_capture_cpu / _gpu (sd = 0 path). Modelled not verified: WaveSim.s_to_c, c_to_s driver loops, SimOps (hand transcriptions, exact correspondence); trusted: the translator (about 700 lines) and Model/WaveSrcPrelude.v (meaning of the emitted primitives). Time is modelled as extended integers: '
              'float32/float64 arithmetic is assumed exact on the integer grid with absorbing sentinels; off-grid rounding is not modelled. '
              'Flat-memory refinement holds for all four option combinations (region certificate derived for every build() result); with strip_forks the accumulated activity is characterised through the alias run of the stripped schedule only (not yet as sums over the unstripped lines). Every round of the campaign is also repeated on a simulator object that has already simulated another batch (results must equal the fresh simulator).'),
     'C04': dict(
@@ -77,7 +77,7 @@ CLAIMS = {
              'scaling times and delays by any k>0 (in particular powers of two) scales it, counts and overflow unchanged; with polarity-free '
              'delays and increasing operands the result is strictly increasing (through overflow and pulse filtering). CIRCUIT LEVEL: for '
              'any op list every finite transition of every signal lies inside the window static timing analysis of the annotated op list '
-             'permits; shifting (scaling) all input waveforms [and delays] shifts (scales) every signal\'s waveform for ANY op list with no side condition (C04_circuit_shift/_scale, rerun forms _inputs), and with polarity-free delays every waveform of the circuit is strictly increasing (C04_circuit_mono). Tied to the code by whole-memory and line-level correspondence; oracle: independent STA over the netlist, per-gate emit-is-sum on '
+             'permits; shifting (scaling) all input waveforms [and delays] shifts (scales) every signal\'s waveform for ANY op list with no side condition (C04_circuit_shift/_scale, rerun forms _inputs), and with polarity-free delays every waveform of the circuit is strictly increasing (C04_circuit_mono). Tied to the code by whole-memory and line-level correspondence; SOURCE TIE: C04_kernel_source_is_model, C04_source_emit_is_sum (the translated _wave_eval). Oracle: independent STA over the netlist, per-gate emit-is-sum on '
              'the implementation\'s waveforms, shifted (+16,-5) and scaled (x4, x1/2) reruns, single-gate stress with simultaneous arrivals.',
         design_ref='5/C04',
         note='As C03: time is the integer/dyadic grid (float rounding off the grid is not modelled).'),
@@ -87,12 +87,12 @@ CLAIMS = {
              '8-valued algebra yields a plain 0/1 then the primitive is constant on the cube spanned by the active operands (exhaustive). '
              '(2) For any gate evaluation: if the LUT is constant on the cube spanned by the operands that have finite transitions, no '
              'transition is produced. (3) init/final of both simulators equal the Boolean function of init/final (C02, C03). Both '
-             'simulators are run on the same circuits/stimuli and compared including the activity bit. MEMORY LEVEL: C05_wavesim_model_predicted restates the prediction for the compared flat-memory model under every c_reuse x strip_forks combination (via C03_wavesim_model_correct).',
+             'simulators are run on the same circuits/stimuli and compared including the activity bit. SOURCE TIE: C05_source_no_change_no_edge (translated _wave_eval). MEMORY LEVEL: C05_wavesim_model_predicted restates the prediction for the compared flat-memory model under every c_reuse x strip_forks combination (via C03_wavesim_model_correct).',
         design_ref='5/C05',
         note='As C02 and C03 (memory level proved for all option combinations; strip_forks under its side condition).'),
     'C06': dict(
         technique='Coq proofs: memory-level invariance of the observed slots under c_reuse and strip_forks for all netlists (every option combination delivers the unstripped line-level value), launcher covers every instance once (model tied to the real MockCuda), lane independence, release-order irrelevance, multi-cycle strip invariance; differential execution over all option pairs',
-        text='Proof (option clauses full at logic and timing level; code-path clause by differential execution). PROVED for every well-formed, combinationally acyclic netlist of known primitives, every stimulus, any value domain: '
+        text='Proof (option clauses full at logic and timing level; code-path clause: kernel bodies by proof from the source text, driver loops by differential execution). CODE PATH (round 3): the merge kernel is ONE function for both paths; wave_capture_cpu and wave_capture_gpu, both translated from the current source, are proved equal to the capture model and hence to each other for all waveforms and capture times (C06_capture_cpu_gpu_same_source_model; sd = 0); the dataset-selection prologue of the source is the select_idx of the dataset theorems (C06_select_source_is_model); the MockCuda launcher is translated from source and proved to run every in-range kernel instance exactly once from any stale coordinates (C06_launcher_source_is_model); every memory access of the kernels is in the kernel\'s own lane column by construction of the translation. PROVED for every well-formed, combinationally acyclic netlist of known primitives, every stimulus, any value domain: '
              'whatever c_reuse and strip_forks are, the flat memory after the scheduled ops holds at the PPO slot of every observed port / state element the value that the '
              'UNSTRIPPED line-level execution gives the line feeding it (C06_options_irrelevant_spec), so any two option combinations agree at every observed slot '
              '(C06_options_irrelevant, C06_c_reuse_irrelevant, C06_end_to_end_reuse; ops, levels, aliases and interface do not depend on c_reuse: C06_c_reuse_same_interface); '
@@ -111,7 +111,7 @@ CLAIMS = {
         note='Modelled not verified: SimOps.__init__ (correspondence for every option setting). Dataset mode 2 (random picking) and sd>0 capture are outside the claim; the GPU kernels are compared with the CPU loops differentially, their bodies are not modelled separately.'),
     'C07': dict(
         technique='Coq proofs: the scheduler\'s op list is in single-assignment topological form for every well-formed acyclic netlist with and without fork stripping; greedy levelisation yields an independent partition; any order inside levels gives the same signals; launcher model tied to the real MockCuda; permuted-schedule execution',
-        text='Proof (full at op granularity). For EVERY well-formed, combinationally acyclic netlist, with AND without fork stripping, the op list SimOps builds is in '
+        text='Proof (full at op granularity; launcher from source). LAUNCHER SOURCE TIE (round 3): C07_launcher_source_is_model (translate/gen_launch.py regenerates Gen/LaunchSrc.v from MockCuda; proved equal to Model/Launch.v, every in-range instance exactly once). For EVERY well-formed, combinationally acyclic netlist, with AND without fork stripping, the op list SimOps builds is in '
              'single-assignment topological form over the stem aliases (C07_build_ops_ssa, C07_build_ops_ssa_strip; stems are characterised as the heads of fork chains and '
              'build_stems is total), hence the published level partition passes the schedule check (C07_build_levels_valid[_strip], and C07_build_sched_cert for every '
              'result of build() under any option and capacity setting): no op reads or overwrites an output of its own level (scratch slot excepted); for every such '
@@ -124,7 +124,7 @@ CLAIMS = {
         note='Modelled not verified: SimOps.__init__ (correspondence). Interleavings below kernel-instance granularity are not modelled (the mock launcher cannot exhibit them).'),
     'C08': dict(
         technique='Coq proofs: allocator invariants over all alloc/free histories (refinement to a block list); SimOps.build passes a proved-sound ownership certificate for ALL netlists and all four c_reuse x strip_forks combinations (invariant over the alloc/release events: reference count = pins + reads to come); step-by-step correspondence; overlap oracle',
-        text='Proof (full for the modelled allocator and map). ALLOCATOR: for ALL histories of well-formed use the Gallina transcription of sim.Heap keeps its '
+        text='Proof (full for the allocator as written and the modelled map). ALLOCATOR SOURCE TIE (round 3): translate/gen_heap.py regenerates Gen/HeapSrc.v from the current text of class Heap (state-passing let-chain, every partial Python operation as an option in evaluation order, the enumerate loop as a structural scan) and the translated alloc / free / __init__ are PROVED equal to the hand model on every state reachable by well-formed use -- no KeyError / IndexError can occur there (C08_heap_source_is_model; exact preconditions and their necessity: C08_heap_source_exact, _precondition_needed), so the allocator theorems speak about the code as written. ALLOCATOR: for ALL histories of well-formed use the Gallina transcription of sim.Heap keeps its '
              'regions tiling the managed range with free regions coalesced, never returns a region overlapping a live one, keeps live '
              'regions unchanged, reports the true high-water mark, and frees commute (so Python\'s set iteration order is irrelevant); compared with sim.Heap '
              'after EVERY step of random histories (full tables). MAP: the ownership certificate is proved sound (a map that passes it makes flat-memory '
@@ -148,7 +148,7 @@ CLAIMS = {
              'signal of the op list has the six facts with initial/final = Boolean evaluation (C13_circuit_capture); on the flat memory a PPO slot '
              'captures the line-level waveform of the line it aliases (C13_flat_capture). Tied to the code by whole-memory correspondence, by the '
              'line-level correspondence (wexec / wacc vs the real memory / abuf) and by an oracle that recounts from the stored waveforms with the '
-             'generator-owned a_ctrl table (row of the LINE an op writes), checks every op carries that row, CPU and GPU capture, rerun with capacity 64. MEMORY LEVEL, ALL OPTIONS: C13_wavesim_model_capture (the compared model captures the six facts of the unstripped line-level waveform under every option combination) and C13_wavesim_model_activity (abuf = wacc; under acc_once the weighted transitions of the final waveforms). The capture oracle reads the observed waveform through the LINE and tests that the output slot is its exact alias (location and capacity).',
+             'generator-owned a_ctrl table (row of the LINE an op writes), checks every op carries that row, CPU and GPU capture, rerun with capacity 64. SOURCE TIE: C13_kernel_source_is_model, C13_source_counts (returned pair = edges of the stored waveform, for the translated source), C13_capture_cpu_source_is_model / _gpu_ (both capture kernels, translated from source, equal the capture model; sd = 0 path). MEMORY LEVEL, ALL OPTIONS: C13_wavesim_model_capture (the compared model captures the six facts of the unstripped line-level waveform under every option combination) and C13_wavesim_model_activity (abuf = wacc; under acc_once the weighted transitions of the final waveforms). The capture oracle reads the observed waveform through the LINE and tests that the output slot is its exact alias (location and capacity).',
         design_ref='5/C13',
         note='As C03; capture with sd>0 is outside the claim; flat-memory statements need the region certificate (c_reuse off, no fork stripping).'),
     'C17': dict(
